@@ -114,10 +114,19 @@ def build(kind, with_on_error, plans, log: Log, engine, kids):
     else:  # child machine: completes via its own timer after T ms (plan of call 0 for all)
         T0 = plans[0][0]
 
-        def kid_entry(interp, ctx, event, a):
-            kids.append(interp)
-            n = note_call(None)
-            ctx["call"] = n
+        if kind == "machineslow":
+            # the child's own start-up suspends (slow async entry action): the invoking state
+            # can be left while the child is still inside start()
+            async def kid_entry(interp, ctx, event, a):
+                kids.append(interp)
+                n = note_call(None)
+                ctx["call"] = n
+                await asyncio.sleep(0.006)
+        else:
+            def kid_entry(interp, ctx, event, a):
+                kids.append(interp)
+                n = note_call(None)
+                ctx["call"] = n
         kcfg = {"id": "kid", "initial": "run", "context": {"call": -1}, "states": {
             "run": {"entry": ["kid_entry"], "after": {str(max(1, T0)): "fin"}},
             "fin": {"type": "final"}}}
@@ -164,7 +173,7 @@ def check(res: Result, log: Log, kind, with_on_error, plans, script, engine, fin
             call_act[n] = ai
             calls_per_act[ai] = calls_per_act.get(ai, 0) + 1
             res.count("service-calls")
-            if kind != "machine" and inp != {"who": "w", "n": 7}:
+            if not kind.startswith("machine") and inp != {"who": "w", "n": 7}:
                 v("C09:wrong-input/" + key_tail, "service received input %r" % (inp,))
             if not acts or acts[-1][1] is not None:
                 v("C09:service-started-for-inactive-state/" + key_tail, "call %d started while w "
@@ -182,7 +191,7 @@ def check(res: Result, log: Log, kind, with_on_error, plans, script, engine, fin
                 v("C09:handler-got-foreign-data/" + key_tail, "%s received %r" % (r[2], data))
                 continue
             want = "raise" if r[2] == "err_act" else "ret"
-            if kind != "machine" and (plans[n] if n < len(plans) else plans[-1])[1] != want:
+            if not kind.startswith("machine") and (plans[n] if n < len(plans) else plans[-1])[1] != want:
                 v("C09:wrong-handler-for-outcome/" + key_tail, "call %d ended with %s but %s ran" % (
                     n, (plans[n] if n < len(plans) else plans[-1])[1], r[2]))
             if not was_active:
@@ -213,12 +222,12 @@ def check(res: Result, log: Log, kind, with_on_error, plans, script, engine, fin
         if ai < 0 or ai >= len(acts):
             continue
         T, out = plans[n] if n < len(plans) else plans[-1]
-        if kind == "machine":
-            T, out = plans[0][0], "ret"
+        if kind.startswith("machine"):
+            T, out = plans[0][0] + (6 if kind == "machineslow" else 0), "ret"
         t_in, t_out = acts[ai]
         t_done = t_in + (T / 1e3 if kind != "plain" else 0.0)
         end = t_out if t_out is not None else final["t_end"]
-        margin = busy + (0.002 if engine == "async" else 0.5) + (0.1 if kind == "machine" else 0.0)
+        margin = busy + (0.002 if engine == "async" else 0.5) + (0.1 if kind.startswith("machine") else 0.0)
         if final.get("stopped") is not None and final["stopped"] < t_done + margin:
             continue
         failed_before = any(r[1] == "status" and r[2] == "error" and r[0] <= t_done + margin
@@ -431,18 +440,18 @@ def run_chunk(spec):
     T = 8
     outcome_sets = [[(T, "ret")], [(T, "raise")], [(T, "ret"), (3, "raise"), (T, "ret")],
                     [(T, "raise"), (T, "ret")], [(2, "ret"), (T + 5, "ret")]]
-    for kind in ("plain", "coro", "machine"):
+    for kind in ("plain", "coro", "machine", "machineslow"):
         for with_on_error in (True, False):
             for plans in outcome_sets:
-                if kind == "machine" and (plans[0][1] != "ret" or len(plans) > 1):
+                if kind.startswith("machine") and (plans[0][1] != "ret" or len(plans) > 1):
                     continue
-                for name, script in scripts_for(T if kind != "plain" else 3):
+                for name, script in scripts_for({"plain": 3, "machineslow": 4}.get(kind, T)):
                     jobs.append(("async", kind, with_on_error, plans, script, name))
     nrand = 30 if tier == "quick" else 1200
     for j in range(nrand * NCHUNKS):
-        kind = ("plain", "coro", "coro", "machine")[j % 4]
+        kind = ("plain", "coro", "coro", "machine", "machineslow")[j % 5]
         plans = [(rng.choice([1, 3, T, T + 4]), rng.choice(["ret", "ret", "raise"])) for _ in range(4)]
-        if kind == "machine":
+        if kind.startswith("machine"):
             plans = [(rng.choice([3, T]), "ret")]
         jobs.append(("async", kind, j % 3 != 0, plans, None, "random"))
     # sync engine
@@ -483,6 +492,7 @@ def quota(counters, tier):
     out = []
     for k in ("schedules.async", "schedules.sync", "service-calls", "handler-firings",
               "schedules.kind.plain", "schedules.kind.coro", "schedules.kind.machine",
+              "schedules.kind.machineslow",
               "unhandled-failures", "census.after-exit", "schedules.with-leave-or-reentry"):
         if counters.get(k, 0) == 0:
             out.append("monitor-never-reached:" + k)
